@@ -183,6 +183,8 @@ def _stiff_nets():
         res.append(('p1-4site-2d', p1b, 0, 0.7))
         pm = crystal.Crystal(np.diag([1., 1.25, .8]), [[np.array([0., 0., 0.]), np.array([.375, .25, 0.]), np.array([.125, .625, .5])]], chemistry=['I'])
         res.append(('low-3site-3d', pm, 0, 0.85))
+        res.append(('ortho-1site', crystal.Crystal(np.diag([1., 1.125, .875]), [[np.zeros(3)]], chemistry=['I']), 0, 1.15))
+        res.append(('rect-1site-2d', crystal.Crystal(np.diag([1., 1.25]), [[np.zeros(2)]], chemistry=['I']), 0, 1.3))
         out = []
         for name, crys, chem, cutoff in res:
             jn = crys.jumpnetwork(chem, cutoff)
@@ -244,7 +246,8 @@ def stiff_stream(ctx):
         else:
             slow = sorted(rng.sample(range(len(jn)), rng.randint(1, len(jn) - 1)))
             deficient = slow in dl
-        shift = rng.randint(46, 68)                       # (3/2)^46 = 1.3e8 ... (3/2)^68 = 9.5e11
+        # (3/2)^46 = 1.3e8 ... (3/2)^68 = 9.5e11; one case in five far beyond (barrier differences of 40 - 80 kT)
+        shift = rng.randint(100, 200) if (t % 5 == 3 or (t % 5 == 4 and (t // 5) % 2 == 0)) else rng.randint(46, 68)
         data['eneT'] = [e + (shift if k in slow else 0) for k, e in enumerate(data['eneT'])]
         plan.append((name, crys, sl, jn, diffuser, data, slow, shift, deficient))
         lines.append(ic.request_line(diffuser.N, crys.dim, diffuser.invmap, ljumps, data))
@@ -266,9 +269,12 @@ def stiff_stream(ctx):
         omega, bias, Rgross, bgross = _site_space(diffuser, args)
         w, V = np.linalg.eigh(0.5 * (omega + omega.T))
         order = np.argsort(np.abs(w)); w, V = w[order], V[:, order]
-        if len(w) < 2 or abs(w[1]) < 1e-14 * abs(w[-1]):
-            ctx.count('stiff:skipped-unresolvable'); continue        # a relaxation mode slower than float resolution of the rate matrix
-        kappa = abs(w[-1]) / abs(w[1])
+        single = len(w) < 2          # one site per cell: no relaxation modes, D = D0
+        if not single and abs(w[1]) < 1e-14 * abs(w[-1]):
+            if not (diffuser.NV == 0):
+                ctx.count('stiff:skipped-unresolvable'); continue        # a relaxation mode slower than float resolution of the rate matrix
+            single = True            # no site vector basis: the rate matrix is never inverted
+        kappa = 1.0 if single else abs(w[-1]) / abs(w[1])
         ctx.case(('stiff', name, line), nontrivial=True, sample=dict(network=name, slow_classes=slow, shift=shift, eig_model=lam.tolist()))
         ctx.count('stiff:' + ('solve' if diffuser.omega_invertible else 'pinv') + (':NV>0' if diffuser.NV else ':NV=0'))
         if deficient: ctx.count('stiff:direction-carried-by-slow-jumps-only')
@@ -276,7 +282,7 @@ def stiff_stream(ctx):
             u = U[:, k]
             s_k = float(u @ D0m @ u)
             b_u = bias @ u
-            g_u = V[:, 1:] @ ((V[:, 1:].T @ b_u) / w[1:])
+            g_u = np.zeros_like(b_u) if single else V[:, 1:] @ ((V[:, 1:].T @ b_u) / w[1:])
             Bg = np.zeros(diffuser.N)
             for i, v in bgross: Bg[i] += abs(float(v @ u))
             ng = float(np.linalg.norm(g_u))
